@@ -1,5 +1,7 @@
 import TpmProofs.PumpFacts
 import TpmProofs.DecodeOk
+import TpmProofs.TruncPump
+import TpmProofs.Props.MsgWF
 /-!
 # C05 — input length mismatches are reported as depleted / superfluous, never absorbed
 
@@ -99,5 +101,87 @@ theorem c05_surplus_walker (t : Ty) (v : Val) (bs : List Byte) (evs : List SEv)
     runWalker true tb (.ty t) (bs ++ suffix) = .ok (v, ⟨suffix, bs.length, stamp 0 evs, []⟩) := by
   have := decode_ok t rootPath none v bs evs h suffix 0 [] [] (by intro c hc; cases hc) (by intro c hc; cases hc)
   simpa [runWalker, initSt, post, bump] using this
+
+/-! ## truncation (every input, every layout, every top but the stream loop) -/
+
+/-- **C05, truncated input, any input**: if strict decoding of `x` consumes more than `k` bytes — whether it then
+accepts `x` or rejects it — then decoding the first `k` bytes of `x` (including `k = 0`, the empty input) raises
+`InputStreamBytesDepletedError` after showing exactly the events the run on `x` emits up to byte count `k`, i.e. the
+events of every field that is complete within the prefix, in order; the error carries the command code of the last
+`.commandCode` event among them (`c05_cc`) -/
+theorem c05_truncated (tb : MsgTables) (top : Top) (hs : top.isStream = false) (x : List Byte) (k : Nat)
+    (hk : k < consumed tb top x) :
+    marshalRun true tb top (x.take k) =
+      ⟨shown (x.take k).length ((traceOf tb top x).filter fun ke => ke.1 ≤ k), .depleted,
+       ccAfter ((traceOf tb top x).filter fun ke => ke.1 ≤ k) none⟩ :=
+  truncated_run tb top hs x k hk
+
+/-- cutting the input anywhere beyond what the decoder consumes changes the walker's result in nothing but the
+bytes left over -/
+theorem c05_cut_beyond (tb : MsgTables) (top : Top) (hs : top.isStream = false) (x : List Byte) (k : Nat)
+    (hk : consumed tb top x ≤ k) :
+    runWalker true tb top (x.take k) = (runWalker true tb top x).mapSt (cutSt (k - consumed tb top x)) :=
+  truncated_beyond tb top hs x k hk
+
+theorem filter_stamp (k : Nat) (evs : List SEv) :
+    (stamp 0 evs).filter (fun ke => decide (ke.1 ≤ k)) = stamp 0 (evs.filter fun e => decide (e.1 ≤ k)) := by
+  induction evs with
+  | nil => rfl
+  | cons e rest ih =>
+    simp only [stamp, List.map_cons, List.filter_cons, Nat.zero_add] at ih ⊢
+    split <;> simp [ih]
+
+/-- **every truncation point of every well-formed structure**: for every layout, every conforming value and every
+`k` below the length of its encoding, strict decoding of the first `k` bytes shows exactly the dictated events with
+offset ≤ `k` and raises depleted -/
+theorem c05_truncated_type (t : Ty) (v : Val) (bs : List Byte) (evs : List SEv) (tb : MsgTables)
+    (h : spec t rootPath none v = some (bs, evs)) (k : Nat) (hk : k < bs.length) :
+    marshalRun true tb (.ty t) (bs.take k) =
+      ⟨shown k (stamp 0 (evs.filter fun e => decide (e.1 ≤ k))), .depleted,
+       ccAfter (stamp 0 (evs.filter fun e => decide (e.1 ≤ k))) none⟩ := by
+  have hw : runWalker true tb (.ty t) bs = .ok (v, ⟨[], bs.length, stamp 0 evs, []⟩) := by
+    have := decode_ok t rootPath none v bs evs h [] 0 [] [] (by intro c hc; cases hc) (by intro c hc; cases hc)
+    simpa [runWalker, initSt, post, bump] using this
+  have hc : consumed tb (.ty t) bs = bs.length := by simp [consumed, hw, stOf]
+  have ht : traceOf tb (.ty t) bs = stamp 0 evs := by simp [traceOf, hw, stOf]
+  have := truncated_run tb (.ty t) rfl bs k (by omega)
+  rw [ht, filter_stamp] at this
+  rw [this]
+  congr 2
+  simp; omega
+
+/-- … of every well-formed command … -/
+theorem c05_truncated_command (p : CmdParts) (bs : List Byte) (evs : List SEv)
+    (h : specCommand Generated.msgTables rootPath p = some (bs, evs)) (k : Nat) (hk : k < bs.length) :
+    marshalRun true Generated.msgTables .command (bs.take k) =
+      ⟨shown k (stamp 0 (evs.filter fun e => decide (e.1 ≤ k))), .depleted,
+       ccAfter (stamp 0 (evs.filter fun e => decide (e.1 ≤ k))) none⟩ := by
+  have hw := decodeCommand_ok Generated.msgTables rootPath p bs evs MsgWF.tag_sizes.1 h [] 0 [] []
+  simp only [List.append_nil, Nat.zero_add, List.nil_append] at hw
+  have hc : consumed Generated.msgTables .command bs = bs.length := by simp [consumed, runWalker, initSt, hw, stOf]
+  have ht : traceOf Generated.msgTables .command bs = stamp 0 evs := by simp [traceOf, runWalker, initSt, hw, stOf]
+  have := truncated_run Generated.msgTables .command rfl bs k (by omega)
+  rw [ht, filter_stamp] at this
+  rw [this]
+  congr 2
+  simp; omega
+
+/-- … and of every well-formed response, for every command code and encryption flag -/
+theorem c05_truncated_response (cc : Option Int) (enc : Bool) (p : RspParts) (bs : List Byte) (evs : List SEv)
+    (h : specResponse Generated.msgTables cc enc rootPath p = some (bs, evs)) (k : Nat) (hk : k < bs.length) :
+    marshalRun true Generated.msgTables (.response cc enc) (bs.take k) =
+      ⟨shown k (stamp 0 (evs.filter fun e => decide (e.1 ≤ k))), .depleted,
+       ccAfter (stamp 0 (evs.filter fun e => decide (e.1 ≤ k))) none⟩ := by
+  have hw := decodeResponse_ok Generated.msgTables cc enc rootPath p bs evs MsgWF.tag_sizes.2 h [] 0 [] []
+  simp only [List.append_nil, Nat.zero_add, List.nil_append] at hw
+  have hc : consumed Generated.msgTables (.response cc enc) bs = bs.length := by
+    simp [consumed, runWalker, initSt, hw, stOf]
+  have ht : traceOf Generated.msgTables (.response cc enc) bs = stamp 0 evs := by
+    simp [traceOf, runWalker, initSt, hw, stOf]
+  have := truncated_run Generated.msgTables (.response cc enc) rfl bs k (by omega)
+  rw [ht, filter_stamp] at this
+  rw [this]
+  congr 2
+  simp; omega
 
 end C05
